@@ -76,11 +76,12 @@ static void one_case(vrng *r)
         if (!inita) skip = true;     /* nothing to reset: the used parser never accepted a buffer */
         else {
             bool ifr = rb == K_OBJ ? binson_parser_init_object(fresh, bb, bn) : binson_parser_init_array(fresh, bb, bn);
-            (void)ifr;
             bool ru, rf;
-            if (how == 1) { ru = binson_parser_reset(used); rf = binson_parser_reset(fresh); }
+            /* a reset / verify that returns true promises the state a fresh init gives: the reference parser is only
+             * initialised; when the restart call fails, the reference makes the same call and must fail the same way */
+            if (how == 1) { ru = binson_parser_reset(used); rf = ru ? ifr : binson_parser_reset(fresh); }
             else {
-                ru = binson_parser_verify(used); rf = binson_parser_verify(fresh);
+                ru = binson_parser_verify(used); rf = ru ? ifr : binson_parser_verify(fresh);
                 if (how == 3) { bool ru2 = binson_parser_verify(used); if (ru2 != ru) vw_violation("c12:verify-not-repeatable", "verify called twice in a row gave %d then %d", ru, ru2); }
                 if (ru && used->buffer_used != 0) vw_violation("c12:verify-cursor", "a successful verify left the cursor at offset %zu", used->buffer_used);
                 if (ru) vw_count("verify_true_restarts", 1);
